@@ -836,6 +836,21 @@ class Walker:
                 self.need = max(self.need, offs[-1] + self.atoms[key])
                 self.trace.append((c.get("l"), cn + " (via %s)" % key, offs[-1], self.atoms[key], {}))
             return
+        if cn and re.match(r"mem(Copy|Move|Set|SetZero|Xor2?|Wipe|Rev|Neg|Swap)$|mem(cpy|move|set)$", cn) and c["a"]:
+            # data primitives: the last argument is the octet count that applies to each buffer argument
+            try:
+                cnt = self.ival(c["a"][-1])
+            except Undecided:
+                cnt = None
+            if cnt is not None and 0 <= cnt < (1 << 40):
+                for a in c["a"][:-1]:
+                    try:
+                        pv = self.pval(a)
+                    except Undecided:
+                        pv = None
+                    if pv is not None:
+                        self.need = max(self.need, pv + cnt)
+            return
         if g is None or g.body is None:
             # libc / no body: a stack-derived data pointer is fine
             return
